@@ -583,8 +583,9 @@ def run(chk, replay=None):
             if err:
                 chk.count('lcapy-error', 'entry-object:%s:%s' % (kind, err))
                 continue
-            entries = [('synthesis.network', lambda f: synthesis.network(obj, f)),
-                       ('Synthesis().network', lambda f: synthesis.Synthesis().network(obj, f))]
+            entries = [('synthesis.network', lambda f: synthesis.network(obj, f))]
+            if kind in ('Z', 'Y', 'other'):
+                entries.append(('Synthesis().network', lambda f: synthesis.Synthesis().network(obj, f)))
             if kind != 'other':
                 entries.append(('obj.network', lambda f: obj.network(f)))
             base_kind = kind[0] if kind != 'other' else 'other'      # Z / Y / other
@@ -650,10 +651,10 @@ def run(chk, replay=None):
                         if not e6 and rep.split()[1] != gz:
                             disagree('entry-value:%s(%s):%s' % (ename, kind, form), inp, gz, rep)
 
-    ncases = 28 if quick else 210
-    nfoster = 18 if quick else 150
+    ncases = 24 if quick else 210
+    nfoster = 16 if quick else 150
     nentry = 6 if quick else 40
-    budget = 150 if quick else 850
+    budget = 125 if quick else 850
     t0 = time.time()
     if replay:
         import json
